@@ -16,7 +16,7 @@ CONSTANTS
   Shapes = {"canon", "dot_out"}
   Limits = {1, 100}
   NewaccVals = {TRUE, FALSE}
-  AsattVals = {FALSE}
+  AsattVals = {"<none>"}
   LongVals = {FALSE}
   AllowSlow = FALSE
   DEV_NewaccNoAuth = FALSE
